@@ -199,21 +199,53 @@ func c03Factory(c *Ctx, w *prove.World) {
 		r.Undecided("dispatch", "Message.Unmarshal", "", "not found")
 	} else {
 		ok := false
-		for _, b := range un.Blocks {
-			iff, isIf := b.Instrs[len(b.Instrs)-1].(*ssa.If)
-			if !isIf {
-				continue
+		// the branch may sit in Unmarshal itself or in a helper it calls (same package, two levels)
+		scope := []*ssa.Function{un}
+		seenF := map[*ssa.Function]bool{un: true}
+		for d := 0; d < 2; d++ {
+			for _, f := range append([]*ssa.Function{}, scope...) {
+				for _, b := range f.Blocks {
+					for _, in := range b.Instrs {
+						if ci, isCall := in.(ssa.CallInstruction); isCall {
+							if g := ci.Common().StaticCallee(); g != nil && g.Blocks != nil && g.Pkg == un.Pkg && !seenF[g] {
+								seenF[g] = true
+								scope = append(scope, g)
+							}
+						}
+					}
+				}
 			}
-			call, isCall := iff.Cond.(*ssa.Call)
-			if !isCall || call.Common().StaticCallee() == nil || call.Common().StaticCallee().Name() != "IsResponse" {
-				continue
-			}
-			t, f := blockCalls(b.Succs[0]), blockCalls(b.Succs[1])
-			if t["CreateResponseCommand"] && !t["CreateRequestCommand"] && f["CreateRequestCommand"] && !f["CreateResponseCommand"] {
-				ok = true
-			} else {
-				r.Fail("dispatch", "Message.Unmarshal", p.Rel(iff.Pos()), "the IsResponse() branch does not select CreateResponseCommand / the other branch CreateRequestCommand")
-				return
+		}
+		for _, f := range scope {
+			for _, b := range f.Blocks {
+				iff, isIf := b.Instrs[len(b.Instrs)-1].(*ssa.If)
+				if !isIf {
+					continue
+				}
+				cond := iff.Cond
+				neg := false
+				for {
+					if u, isNot := cond.(*ssa.UnOp); isNot && u.Op == token.NOT {
+						neg = !neg
+						cond = u.X
+						continue
+					}
+					break
+				}
+				call, isCall := cond.(*ssa.Call)
+				if !isCall || call.Common().StaticCallee() == nil || call.Common().StaticCallee().Name() != "IsResponse" {
+					continue
+				}
+				t, fls := blockCalls(b.Succs[0]), blockCalls(b.Succs[1])
+				if neg {
+					t, fls = fls, t
+				}
+				if t["CreateResponseCommand"] && !t["CreateRequestCommand"] && fls["CreateRequestCommand"] && !fls["CreateResponseCommand"] {
+					ok = true
+				} else {
+					r.Fail("dispatch", "Message.Unmarshal", p.Rel(iff.Pos()), "the IsResponse() branch does not select CreateResponseCommand / the other branch CreateRequestCommand")
+					return
+				}
 			}
 		}
 		if ok {
